@@ -38,6 +38,7 @@ func c18FilterWriterTable(h H) (bad string, n int) {
 	if filtersT == nil {
 		return "ResponseFilterWriter: no filters field", 0
 	}
+	gzWT := h.p.typeByName("compress/gzip", "Writer")
 	type cs struct {
 		name    string
 		answers [][2]bool // per decision round: what the two filters answer
@@ -52,6 +53,7 @@ func c18FilterWriterTable(h H) (bad string, n int) {
 		{"header written twice; the filters decline the second time (they see the Content-Encoding the first commit set)", [][2]bool{{true, true}, {false, true}}, "HHW"},
 		{"early hints, then the final header; the filters decline the second time", [][2]bool{{true, true}, {false, true}}, "EHW"},
 		{"header written twice, declined at first, agreed later", [][2]bool{{true, false}, {true, true}}, "HHW"},
+		{"a header written again after body bytes went out", [][2]bool{{true, true}, {false, true}}, "HWHW"},
 		{"flush before the first write (event stream)", [][2]bool{{true, true}}, "FWF"},
 		{"flush before the first write, a filter declines", [][2]bool{{true, false}}, "FW"},
 		{"flush between writes", [][2]bool{{true, true}}, "HWFW"},
@@ -97,6 +99,10 @@ func c18FilterWriterTable(h H) (bad string, n int) {
 				events = append(events, fmt.Sprintf("ask%d", k))
 				return abool(c.answers[rr][k]), true
 			case strings.HasSuffix(callee, "gzipResponseWriter).WriteHeader"):
+				if code, ok := args[len(args)-1].(aint); ok && code >= 100 && code <= 199 && code != 101 {
+					events = append(events, "gzip-info-header")
+					return atuple{}, true
+				}
 				events = append(events, "gzip-header")
 				round++
 				return atuple{}, true
@@ -104,15 +110,26 @@ func c18FilterWriterTable(h H) (bad string, n int) {
 				events = append(events, "gzip-body")
 				return atuple{aint(3), anil{}}, true
 			case strings.HasSuffix(callee, "gzipResponseWriter).Writer"):
+				if gzWT != nil {
+					return aiface{aptr{&aobj{name: "compressor", typ: gzWT, f: map[string]aval{}}, ""}, types.NewPointer(gzWT)}, true
+				}
 				return aiface{aptr{&aobj{name: "discard", typ: types.Typ[types.Int], f: map[string]aval{}}, ""}, types.Typ[types.Int]}, true
 			case callee == "invoke:WriteHeader":
+				if code, ok := args[len(args)-1].(aint); ok && code >= 100 && code <= 199 && code != 101 {
+					// an informational response commits nothing
+					events = append(events, "info-header")
+					return atuple{}, true
+				}
 				events = append(events, "plain-header")
 				round++
 				return atuple{}, true
 			case callee == "invoke:Write":
 				events = append(events, "plain-body")
 				return atuple{aint(3), anil{}}, true
-			case strings.HasSuffix(callee, "gzip.Writer).Reset"), strings.HasSuffix(callee, "gzip.Writer).Flush"):
+			case strings.HasSuffix(callee, "gzip.Writer).Reset"):
+				events = append(events, "attach")
+				return atuple{}, true
+			case strings.HasSuffix(callee, "gzip.Writer).Flush"):
 				return atuple{}, true
 			case strings.HasSuffix(callee, "ResponseWriterWrapper).Flush"), strings.HasSuffix(callee, "gzipResponseWriter).Flush"), callee == "invoke:Flush":
 				// flushing the connection: net/http commits the header as it stands if none was written yet
@@ -156,7 +173,7 @@ func c18FilterWriterTable(h H) (bad string, n int) {
 		// the route the first header announced
 		route, first := "", -1
 		for i, e := range events {
-			if strings.HasSuffix(e, "-header") {
+			if strings.HasSuffix(e, "-header") && !strings.HasSuffix(e, "info-header") {
 				route, first = strings.TrimSuffix(e, "-header"), i
 				break
 			}
@@ -183,8 +200,11 @@ func c18FilterWriterTable(h H) (bad string, n int) {
 		}
 		bodies := 0
 		for _, e := range events[first+1:] {
-			if strings.HasPrefix(e, "ask") || e == "flush" {
+			if strings.HasPrefix(e, "ask") || e == "flush" || strings.HasSuffix(e, "info-header") {
 				continue
+			}
+			if e == "attach" {
+				return fmt.Sprintf("%s: the compressor is attached to the connection again after the header was committed — a stream that has begun is cut and started over (%s)", desc, seq), n
 			}
 			if !strings.HasPrefix(e, route+"-") {
 				return fmt.Sprintf("%s: the first header went through the %s writer (the client was told %s), but later %s — the body does not match what Content-Encoding says (%s)", desc, route, map[string]string{"gzip": "Content-Encoding: gzip", "plain": "no Content-Encoding"}[route], e, seq), n
